@@ -122,6 +122,108 @@ void h_pool_free(void)
     VF_ASSERT(count_free() + 2 * (int)n_return == f0 + 1, "exactly one block joins the free set (minus whole buckets passed to the global pool, each exactly once)");
     VF_ASSERT(lp.bucket_index < ABT_MEM_POOL_MAX_LOCAL_BUCKETS && lp.buckets[lp.bucket_index]->bucket_info.num_headers >= 1 && lp.buckets[lp.bucket_index]->bucket_info.num_headers <= 2, "representation preserved");
     VF_ASSERT(n_return <= ABT_MEM_POOL_NUM_RETURN_BUCKETS && (n_return < 2 || ret_bucket[0] != ret_bucket[1]), "no bucket is given back twice");
+    for (unsigned k = 0; k < 4; k++) if (k < n_return) {
+        VF_ASSERT(ret_bucket[k] != NULL && !is_free(ret_bucket[k]) && !is_free(ret_bucket[k]->p_next), "a bucket handed to the global pool is no longer held by the local pool (no block is owned by two pools: another stream may take it at once)");
+        VF_ASSERT(ret_bucket[k]->bucket_info.num_headers == 2 && ret_bucket[k]->p_next != NULL && ret_bucket[k]->p_next->p_next == NULL, "... and is a complete bucket of exactly num_headers_per_bucket blocks");
+        VF_ASSERT((void *)ret_bucket[k] != (void *)&blk && (void *)ret_bucket[k]->p_next != (void *)&blk, "... that does not contain the block just freed (the oldest buckets overflow, the newest stay)");
+    }
     VF_REACH("pool_free"); VF_COVER(n_return > 0, "overflowed to the global pool");
+}
+#endif
+
+#ifdef VF_UNIT_POOLE
+/* Local pool steps for ANY bucket size and ANY chain length (unbounded): the two functions only look at the head
+ * of each bucket (count stored in the head, link to the second block), never further down the chains, so the heads
+ * and second blocks are the window; the tails are untouched by the frame (checked: second blocks keep their link).
+ * Representation R: bucket_index < MAX; buckets[k], k < bucket_index, are complete (count == per_bucket);
+ * buckets[bucket_index] holds 1..per_bucket blocks and its head records how many; all bucket heads distinct.
+ * Abstract view V = union of the chains.  alloc: V' = V - {returned head} (+ one fresh complete bucket when the last
+ * block went out); free(b): V' = V + {b} - {complete buckets handed to the global pool}. */
+#define MAXB ABT_MEM_POOL_MAX_LOCAL_BUCKETS
+static unsigned n_take, n_return; static ABTI_mem_pool_header *ret_bucket[4]; static const void *ret_pool; static int take_fail; static ABTI_mem_pool_header fresh_head, fresh_second; static size_t P;
+int ABTI_mem_pool_take_bucket(ABTI_mem_pool_global_pool *g, ABTI_mem_pool_header **pb)
+{ if (take_fail) return ABT_ERR_MEM; fresh_head.p_next = &fresh_second; fresh_head.bucket_info.num_headers = P; *pb = &fresh_head; n_take++; return ABT_SUCCESS; } /* contract of the global pool: a complete bucket (C15 gpool_* units) */
+void ABTI_mem_pool_return_bucket(ABTI_mem_pool_global_pool *g, ABTI_mem_pool_header *b) { ret_bucket[n_return & 3] = b; ret_pool = g; n_return++; }
+static ABTI_mem_pool_global_pool gp; static ABTI_mem_pool_local_pool lp; static ABTI_mem_pool_header head[MAXB], second[MAXB], tail_of_second[MAXB];
+static size_t bi0, c0;
+static void build(void)
+{
+    { size_t p; P = p; } VF_ASSUME(P >= 1); lp.p_global_pool = &gp; lp.num_headers_per_bucket = P; gp.num_headers_per_bucket = P; n_take = n_return = 0; { int f; take_fail = !!f; }
+    { size_t b; bi0 = b; } VF_ASSUME(bi0 < MAXB); lp.bucket_index = bi0;
+    { size_t c; c0 = c; } VF_ASSUME(1 <= c0 && c0 <= P);
+    for (size_t b = 0; b < MAXB; b++) { ABTI_mem_pool_header n1, n2; head[b] = n1; second[b] = n2; second[b].p_next = &tail_of_second[b]; lp.buckets[b] = &head[b]; head[b].p_next = &second[b];
+        head[b].bucket_info.num_headers = (b == bi0) ? c0 : P; if (b > bi0) { ABTI_mem_pool_header *junk; lp.buckets[b] = junk; } } /* slots above the index hold stale pointers */
+    if (c0 == 1) head[bi0].p_next = NULL;
+}
+void h_pool_alloc_any(void)
+{
+    build(); void *m = (void *)0x77; ABTI_mem_pool_header *b0[MAXB]; for (size_t b = 0; b < MAXB; b++) b0[b] = lp.buckets[b];
+    int r = ABTI_mem_pool_alloc(&lp, &m);
+    if (r != ABT_SUCCESS) { VF_ASSERT(take_fail && c0 == 1 && bi0 == 0 && m == (void *)0x77 && n_return == n_take && lp.bucket_index == bi0, "failure only when the last block would go out and the global pool has nothing: output untouched, index unchanged"); VF_REACH("alloc failed"); return; }
+    VF_ASSERT(m == (void *)&head[bi0], "the block handed out is the head of the current bucket");
+    if (c0 > 1) {
+        VF_ASSERT(lp.bucket_index == bi0 && lp.buckets[bi0] == &second[bi0] && second[bi0].bucket_info.num_headers == c0 - 1 && second[bi0].p_next == &tail_of_second[bi0], "the rest of the chain is the current bucket and records one block less; its own link is untouched");
+        VF_ASSERT(n_take == 0 && n_return == 0, "no traffic with the global pool");
+    } else if (bi0 > 0) {
+        VF_ASSERT(lp.bucket_index == bi0 - 1 && lp.buckets[bi0 - 1] == b0[bi0 - 1] && lp.buckets[bi0 - 1]->bucket_info.num_headers == P && n_take == 0 && n_return == 0, "last block of the bucket: the previous (complete) bucket becomes current");
+    } else {
+        VF_ASSERT(n_take == ABT_MEM_POOL_NUM_TAKE_BUCKETS && n_return == 0 && lp.bucket_index == ABT_MEM_POOL_NUM_TAKE_BUCKETS - 1 && lp.buckets[lp.bucket_index] == &fresh_head && fresh_head.bucket_info.num_headers == P, "last block of the pool: complete buckets are taken from the global pool and become current");
+    }
+    for (size_t b = 0; b < MAXB; b++) if (b <= lp.bucket_index) VF_ASSERT(lp.buckets[b] != (ABTI_mem_pool_header *)m, "the block handed out heads no bucket of the pool any more (it is in no free list: chains are disjoint and it was a head)");
+    VF_ASSERT(lp.bucket_index < MAXB && lp.buckets[lp.bucket_index]->bucket_info.num_headers >= 1 && lp.buckets[lp.bucket_index]->bucket_info.num_headers <= P, "representation preserved: current bucket holds 1..per_bucket blocks");
+    for (size_t b = 0; b < MAXB; b++) if (b < lp.bucket_index) VF_ASSERT(lp.buckets[b]->bucket_info.num_headers == P, "representation preserved: lower buckets are complete");
+    VF_REACH("pool_alloc any size"); VF_COVER(c0 == 1 && bi0 == 0, "refill"); VF_COVER(c0 == 1 && bi0 > 0, "bucket exhausted"); VF_COVER(c0 > 5, "long chain"); VF_COVER(P > 1000000, "huge bucket");
+}
+void h_pool_free_any(void)
+{
+    build(); static ABTI_mem_pool_header blk; ABTI_mem_pool_header *b0[MAXB]; for (size_t b = 0; b < MAXB; b++) b0[b] = lp.buckets[b];
+    ABTI_mem_pool_free(&lp, &blk);
+    if (c0 < P) {
+        VF_ASSERT(lp.bucket_index == bi0 && lp.buckets[bi0] == &blk && blk.p_next == &head[bi0] && blk.bucket_info.num_headers == c0 + 1 && n_return == 0, "room in the current bucket: the block becomes its head, links to the old head and records one block more");
+    } else if (bi0 + 1 < MAXB) {
+        VF_ASSERT(lp.bucket_index == bi0 + 1 && lp.buckets[bi0 + 1] == &blk && blk.p_next == NULL && blk.bucket_info.num_headers == 1 && lp.buckets[bi0] == b0[bi0] && n_return == 0, "current bucket complete: the block starts the next bucket, the complete one stays");
+    } else {
+        VF_ASSERT(n_return == ABT_MEM_POOL_NUM_RETURN_BUCKETS && ret_pool == &gp, "every bucket complete: exactly NUM_RETURN buckets overflow to this pool's global pool");
+        for (size_t k = 0; k < ABT_MEM_POOL_NUM_RETURN_BUCKETS; k++) VF_ASSERT(ret_bucket[k] == b0[k] && ret_bucket[k]->bucket_info.num_headers == P, "... the OLDEST complete buckets, each once, as they were");
+        VF_ASSERT(lp.bucket_index == MAXB - ABT_MEM_POOL_NUM_RETURN_BUCKETS && lp.buckets[lp.bucket_index] == &blk && blk.p_next == NULL && blk.bucket_info.num_headers == 1, "... the block starts a new current bucket");
+        for (size_t k = 0; k + ABT_MEM_POOL_NUM_RETURN_BUCKETS < MAXB; k++) VF_ASSERT(lp.buckets[k] == b0[k + ABT_MEM_POOL_NUM_RETURN_BUCKETS], "... the buckets that stay move down in order");
+        for (size_t k = 0; k < ABT_MEM_POOL_NUM_RETURN_BUCKETS; k++) for (size_t b = 0; b < MAXB; b++) if (b <= lp.bucket_index) VF_ASSERT(lp.buckets[b] != ret_bucket[k], "a bucket handed to the global pool is no longer held by the local pool (another stream may take it at once)");
+    }
+    for (size_t b = 0; b < MAXB; b++) { VF_ASSERT(head[b].p_next == (b == bi0 && c0 == 1 ? NULL : &second[b]) && head[b].bucket_info.num_headers == (b == bi0 ? c0 : P) && second[b].p_next == &tail_of_second[b], "blocks already in the pool are not written (frame)"); }
+    VF_ASSERT(lp.bucket_index < MAXB && lp.buckets[lp.bucket_index]->bucket_info.num_headers >= 1 && lp.buckets[lp.bucket_index]->bucket_info.num_headers <= P, "representation preserved");
+    for (size_t b = 0; b < MAXB; b++) if (b < lp.bucket_index) VF_ASSERT(lp.buckets[b]->bucket_info.num_headers == P, "representation preserved: lower buckets are complete");
+    VF_REACH("pool_free any size"); VF_COVER(c0 == P && bi0 + 1 == MAXB, "overflow"); VF_COVER(c0 < P && P > 1000000, "huge bucket"); VF_COVER(c0 == P && bi0 + 1 < MAXB, "next bucket");
+}
+#endif
+
+#ifdef VF_UNIT_GUARD
+/* Guard pages: whatever a creation route write-protects (mprotect-based stack-overflow guard, any guard kind) the
+ * matching release route makes writable again, same page and size, exactly once -- before the memory goes back to
+ * malloc, to a pool or to the user who supplied the stack.  ABTU_mprotect is a logging stub (A5). */
+static unsigned n_prot, n_unprot; static void *prot_addr, *unprot_addr; static size_t prot_size, unprot_size; static int mprot_fail;
+int ABTU_mprotect(void *addr, size_t size, ABT_bool protect)
+{
+    if (protect) { n_prot++; prot_addr = addr; prot_size = size; return mprot_fail ? ABT_ERR_SYS : ABT_SUCCESS; }
+    n_unprot++; unprot_addr = addr; unprot_size = size; return ABT_SUCCESS;
+}
+void h_guard_pairing(void)
+{
+    enum { STK = 16384 }; static char arena[STK + 2048]; static char ustack[STK];
+    int route; VF_ASSUME(0 <= route && route <= 2); int ext_alloc, ext_free; ABTI_local *la = ext_alloc ? NULL : (ABTI_local *)&xs, *lf = ext_free ? NULL : (ABTI_local *)&xs;
+    { int k; VF_ASSUME(k == ABTI_STACK_GUARD_NONE || k == ABTI_STACK_GUARD_MPROTECT || k == ABTI_STACK_GUARD_MPROTECT_STRICT); glob.stack_guard_kind = k; }
+    glob.sys_page_size = 4096; glob.thread_stacksize = STK; mprot_fail = 0; /* a failed protect is tolerated by the non-strict kind only; pairing is stated for the successful case */
+    vf_pool_block = arena + STK; vf_pool_fail = 0; vf_pool_allocs = vf_pool_frees = 0; vf_lock_held = 0; n_prot = n_unprot = 0;
+    ABTI_ythread *y; int r;
+    if (route == 0) { size_t sz; VF_ASSUME(sz >= 8192 && sz <= STK); r = ABTI_mem_alloc_ythread_malloc_desc_stack(&glob, sz, &y); }      /* malloc'ed stack + descriptor */
+    else if (route == 1) r = ABTI_mem_alloc_ythread_mempool_desc_stack(&glob, la, STK, &y);                                               /* default stack from the stack pool (malloc'ed for external threads) */
+    else { size_t off; VF_ASSUME(off <= 64 && (off & 7) == 0); r = ABTI_mem_alloc_ythread_mempool_desc(&glob, la, STK - 64, ustack + STK - off, &y); } /* user-supplied stack, descriptor from the pool / malloc */
+    if (r != ABT_SUCCESS) { VF_ASSERT(n_prot == 0, "nothing stays protected when the creation fails"); VF_REACH("guard: allocation failed"); return; }
+    y->thread.type |= ABTI_THREAD_TYPE_YIELDABLE; /* as ythread_create does */
+    unsigned p_alloc = n_prot; VF_ASSERT(n_unprot == 0 && p_alloc <= 1, "creation protects at most one guard page and unprotects none");
+    ABTI_mem_free_thread(&glob, lf, &y->thread);
+    VF_ASSERT(n_prot == p_alloc, "release protects nothing");
+    VF_ASSERT(n_unprot == p_alloc, "every guard page installed at creation is removed at release, exactly once (memory is never handed back write-protected)");
+    if (p_alloc) VF_ASSERT(unprot_addr == prot_addr && unprot_size == prot_size, "the same page, the same size");
+    VF_REACH("guard pairing"); VF_COVER(route == 2 && ext_alloc && p_alloc == 1, "user stack, descriptor malloc'ed by an external thread, guard on"); VF_COVER(route == 0 && p_alloc == 1, "malloc'ed stack, guard on"); VF_COVER(route == 1 && ext_alloc && p_alloc == 1, "default stack for an external thread"); VF_COVER(route == 2 && !ext_alloc && p_alloc == 1, "user stack, pool descriptor");
 }
 #endif
